@@ -2998,7 +2998,8 @@ impl Planner {
                 sp.edge_type.clone(),
                 direction,
             )
-            .with_all_paths(sp.all_paths),
+            .with_all_paths(sp.all_paths)
+            .with_tx_context(self.viewing_epoch, self.tx_id),
         );
 
         // Add path length column with the expected naming convention
